@@ -128,8 +128,8 @@ IPNET_NONE = z3.Function("ipnet_is_none", z3.BitVecSort(BVW), z3.BitVecSort(BVW)
 IPNET_VAL = z3.Function("ipnet_value", z3.BitVecSort(BVW), z3.BitVecSort(BVW), Net)
 
 il = contract("cisco_acl.helpers.init_line", dict(line=TStr), TStr, verify=False, props=("C05",),
-              note="returns the text with single spaces: the same whitespace-separated tokens (TypeError for non-strings): str.split/join, audited")
-il.may_raise("TypeError", None)
+              note="for a str argument: returns the text with single spaces, i.e. the same whitespace-separated tokens, and never raises: str.split/join, audited")
+# (TypeError only for a non-str argument: cannot happen for the str-typed parameter of this contract)
 il.ensure("tokens", lambda cx, result, line: z3.And(WS_LEN(S._t(result)) == WS_LEN(S._t(line)), WS_ARR(S._t(result)) == WS_ARR(S._t(line))))
 
 ci = contract("cisco_acl.wildcard.Wildcard._create_ipnet", dict(self=TObj("Wildcard")), TOpt(TNet), verify=False, props=("C05",),
